@@ -2,7 +2,7 @@
     are refuted by a concrete document.  The current code is modelled in
     Model/Json.v; nothing here is used by the theorems of Properties/C20.v. *)
 From Coq Require Import List NArith ZArith Bool.
-From Tongo Require Import Lib.Bits Lib.Res Model.BocParse Model.JsonText Model.Json.
+From Tongo Require Import Lib.Bits Lib.Res Model.BitString Model.BitStringD Model.BocParse Model.JsonText Model.Json.
 Import ListNotations.
 Local Open Scope N_scope.
 
@@ -27,3 +27,27 @@ Proof. vm_compute. reflexivity. Qed.
 (* the decoder as it is returns an error on the same document *)
 Lemma parse_cell_zero_roots : parse_cell deser_root_ids doc_zero_roots = Err EOther.
 Proof. vm_compute. reflexivity. Qed.
+
+(** * padding of the Fift text by rounding the length up *)
+(* the 5 bits 10110 read at a byte-aligned position of a source that continues
+   with 111...: ReadBits copies the whole byte, the result's buffer is 10110111 *)
+Definition stale_value : res bs :=
+  read_bs (repeat false 8) [true; false; true; true; false] [true; true; true; false; false; false; false; false; false; false; false].
+
+Lemma stale_value_buffer :
+  exists r, stale_value = Ok r /\ abs r = [true; false; true; true; false]
+            /\ buf r = [true; false; true; true; false; true; true; true].
+Proof. vm_compute. eexists. repeat split. Qed.
+
+(* the encoder as it is prints B4_ (10110 + tag 1 + zeros) and it parses back *)
+Lemma stale_value_prints_its_bits :
+  (do r <- stale_value; print_bitstring_bs r) = Ok (quote [66; 52; 95])
+  /\ parse_bitstring (quote [66; 52; 95]) = Ok [true; false; true; true; false].
+Proof. vm_compute. split; reflexivity. Qed.
+
+(* rounding the length up instead prints B7_, which parses to 1011011: a
+   different, longer bit string -- silent corruption of addr_extern / addr_var *)
+Lemma print_roundup_refuted :
+  (do r <- stale_value; print_bitstring_bs_roundup r) = Ok (quote [66; 55; 95])
+  /\ parse_bitstring (quote [66; 55; 95]) = Ok [true; false; true; true; false; true; true].
+Proof. vm_compute. split; reflexivity. Qed.
